@@ -363,6 +363,94 @@ partial def loopRun (lines : Array String) (i : Nat) (t0 : Nat) (scripts : List 
     | _ => IO.println "bad-op"; loopRun lines (i + 1) t0 scripts
   else return i
 
+/-! ## thread / thread-pool mode under virtual time
+
+One worker (`Op.poll 0 clock` / `Op.wake 0`) runs to its next `wait_until` after every operation of the main thread;
+`adv t` moves the clock from one wait deadline to the next. -/
+
+structure MT where
+  s : State := init
+  clock : Nat := 0
+
+def workerWait (s : State) : Option (Option Nat) := (s.waits.find? (fun p => p.1 == 0)).map (·.2)
+
+/-- let the worker run until it is parked on a deadline in the future; returns the serials it resolved -/
+def settle (m : MT) : Nat → MT
+  | 0 => m
+  | fuel + 1 =>
+      match workerWait m.s with
+      | some (some d) =>
+          if d ≤ m.clock then settle { m with s := (step H m.s (Op.wake 0)).1 } fuel else m
+      | some none => m
+      | none => settle { m with s := (step H m.s (Op.poll 0 m.clock)).1 } fuel
+
+def mtEvents (m0 m1 : MT) : List String :=
+  (sortBy (fun (d : Done) => (d.serial, 0)) (m1.s.log.drop m0.s.log.length)).map
+    (fun d => s!"sleep#{d.serial}={fateStr d.fate}@{m1.clock}")
+
+def settleFuel (m : MT) : Nat := 4 * m.s.heap.length + 8
+
+/-- `adv t`: one group of events per wake-up -/
+def advance (m : MT) (t : Nat) : Nat → MT × List String
+  | 0 => (m, [])
+  | fuel + 1 =>
+      match workerWait m.s with
+      | some (some d) =>
+          if d ≤ t then
+            let m1 : MT := { s := (step H m.s (Op.wake 0)).1, clock := max m.clock d }
+            let m2 := settle m1 (settleFuel m1)
+            let (m3, evs) := advance m2 t fuel
+            (m3, mtEvents { m with clock := m1.clock } m2 ++ evs)
+          else ({ m with clock := max m.clock t }, [])
+      | _ => ({ m with clock := max m.clock t }, [])
+
+def mtOp (m : MT) (ws : List String) : Option (MT × String) :=
+  let nat (i : Nat) : Nat := (natArg ws i).getD 0
+  let fin (m1 : MT) (head : String) : MT × String :=
+    let m2 := settle m1 (settleFuel m1)
+    (m2, withEvents head (mtEvents m m2))
+  match ws with
+  | "sleep" :: _ | "sched" :: _ =>
+      match step H m.s (Op.schedule (nat 1) (nat 2)) with
+      | (s1, Res.scheduled k ntf) => some (fin { m with s := s1 } s!"sleep#{k} ntf={boolStr ntf}")
+      | (s1, _) => some ({ m with s := s1 }, "bad-op")
+  | "adv" :: _ =>
+      let (m1, evs) := advance m (nat 1) (2 * m.s.heap.length + 4)
+      some (m1, withEvents "adv" evs)
+  | ["cancel", _] | ["cancelx", _, _] =>
+      match step H m.s (Op.cancel (nat 1) (nat 2)) with
+      | (s1, Res.flag b) => some (fin { m with s := s1 } s!"cancel {boolStr b}")
+      | (s1, _) => some ({ m with s := s1 }, "bad-op")
+  | "remove" :: _ =>
+      match step H m.s (Op.remove (nat 1)) with
+      | (s1, Res.removed r) => some (fin { m with s := s1 } s!"remove {boolStr r.isSome}")
+      | (s1, _) => some ({ m with s := s1 }, "bad-op")
+  | ["dump"] => some (m, "dump " ++ dumpStr m.s.heap)
+  | _ => none
+
+partial def loopMT (lines : Array String) (i : Nat) (m : MT) : IO Nat := do
+  if h : i < lines.size then
+    let ws := words lines[i]
+    let finish : List String :=
+      let m1 : MT := { m with s := (step H m.s Op.destroy).1 }
+      mtEvents m m1
+    match ws with
+    | ["end"] =>
+        IO.println (withEvents "end" finish)
+        return i + 1
+    | ["destroy"] =>
+        IO.println (withEvents "destroy" finish)
+        IO.println "end"
+        let mut j := i + 1
+        while j < lines.size && words lines[j]! != ["end"] do j := j + 1
+        return j + 1
+    | [] => loopMT lines (i + 1) m
+    | _ =>
+        match mtOp m ws with
+        | some (m1, out) => IO.println (check m1.s out); loopMT lines (i + 1) m1
+        | none => IO.println "bad-op"; loopMT lines (i + 1) m
+  else return i
+
 partial def loop (lines : Array String) (i : Nat) : IO Unit := do
   if h : i < lines.size then
     let ws := words lines[i]
@@ -370,6 +458,12 @@ partial def loop (lines : Array String) (i : Nat) : IO Unit := do
     | "case" :: id :: "man" :: _ =>
         IO.println s!"case {id}"
         let j ← loopMan lines (i + 1) {}
+        loop lines j
+    | "case" :: id :: "thr" :: _ | "case" :: id :: "pool" :: _ =>
+        IO.println s!"case {id}"
+        -- the worker starts and parks itself on an empty vector
+        let m0 : MT := {}
+        let j ← loopMT lines (i + 1) (settle m0 4)
         loop lines j
     | "case" :: id :: "run" :: rest =>
         IO.println s!"case {id}"
